@@ -7,13 +7,27 @@ import json, os, re, shutil, subprocess, sys, tempfile
 ROOT = os.path.dirname(os.path.dirname(os.path.abspath(__file__)))
 
 
+def add_worktree(wt):
+    """`git worktree add` with retries (concurrent invocations contend for the repository lock)."""
+    import time as _t
+    err = None
+    for attempt in range(8):
+        r = subprocess.run(["git", "-C", "/repo", "worktree", "add", "--detach", "-f", wt], capture_output=True, text=True)
+        if r.returncode == 0:
+            return
+        err = r.stderr
+        subprocess.run(["git", "-C", "/repo", "worktree", "prune"], capture_output=True)
+        _t.sleep(1.5 * (attempt + 1))
+    raise RuntimeError("git worktree add failed: " + str(err))
+
+
 def verify(sid, run_tests=True):
     d = os.path.join(ROOT, "seeded", sid)
     meta = json.load(open(os.path.join(d, "meta.json")))
     tmp = tempfile.mkdtemp(prefix="vseed_", dir="/tmp")
     wt = os.path.join(tmp, "wt")
     try:
-        subprocess.run(["git", "-C", "/repo", "worktree", "add", "--detach", "-f", wt], check=True, capture_output=True)
+        add_worktree(wt)
         env = dict(os.environ, PYTHONPATH=os.path.join(wt, "src"), OMP_NUM_THREADS="2")
         head = subprocess.run(["git", "-C", wt, "rev-parse", "--short", "HEAD"], capture_output=True, text=True).stdout.strip()
         r0 = subprocess.run(["/venv/bin/python", os.path.join(d, "demo.py")], env=env, capture_output=True, text=True, cwd=tmp)
